@@ -304,6 +304,7 @@ func mustJSON(v any) string {
 type libRun struct {
 	panicked string
 	parseErr bool
+	parsePanic bool
 	out      exec.Outcome
 	res      numscript.ExecutionResult
 	err      interpreter.InterpreterError
@@ -313,6 +314,7 @@ func libraryRun(c Case) (lr libRun) {
 	p := exec.Parse(c.Text)
 	if !p.InDomain {
 		lr.parseErr = true
+		lr.parsePanic = strings.HasPrefix(p.Why, "parser panic")
 		return
 	}
 	defer func() {
@@ -397,11 +399,6 @@ func checkRunOutput(c Case, ch string, out procOut, lr libRun) *core.Violation {
 func executeRun(c Case, bin, dir string, res *Result) {
 	tr := res.Trace
 	lr := libraryRun(c)
-	if lr.parseErr {
-		res.InDomain = false
-		res.Why = "script does not parse"
-		return
-	}
 	res.InDomain = true
 	whole := fmt.Sprintf(`{"script":%s,"variables":%s,"balances":%s,"metadata":%s}`, mustJSON(c.Text), mustJSON(c.In.Vars), balancesJSON(c.In), mustJSON(c.In.Meta))
 	flagArgs := []string{"--output-format", "json"}
@@ -490,6 +487,20 @@ func executeRun(c Case, bin, dir string, res *Result) {
 			return
 		}
 		tr.Add("run via %s -> exit %d stdout %q stderr %q", ch, out.exit, core.Truncate(out.stdout, 500), firstLine(out.stderr))
+		if lr.parseErr {
+			// the library reports parsing errors for this text: the CLI must not present a result
+			if lr.parsePanic || strings.Contains(out.stderr, "panic:") {
+				res.InDomain = false
+				res.Why = "parser panics"
+				continue
+			}
+			if out.exit == 0 || strings.Contains(out.stdout, "postings") {
+				res.Violation = viol("run", "result-for-a-script-with-parse-errors", fmt.Sprintf("channel %s: numscript.Parse reports errors for this text, the CLI exits %d with stdout %s", ch, out.exit, core.Truncate(out.stdout, 200)))
+				return
+			}
+			res.Probes["run_script_with_parse_errors_rejected"]++
+			continue
+		}
 		if lr.panicked != "" {
 			if out.exit == 0 {
 				res.Violation = viol("run", "exit-zero-where-library-panics", "library panics ("+lr.panicked+") but the CLI exits 0")
@@ -508,6 +519,10 @@ func executeRun(c Case, bin, dir string, res *Result) {
 			return
 		}
 		res.Probes["run_via_"+ch]++
+	}
+	if lr.parseErr {
+		res.Nontrivial = res.Invoked > 0
+		return
 	}
 	if lr.panicked == "" {
 		if lr.err != nil {
@@ -587,6 +602,9 @@ func genCase(r *rand.Rand) Case {
 		case 3:
 			c.Text = core.Pick(r, []string{"", "\n", "// only a comment\n", "/* block */", "   \n\n", "vars { }\n"})
 		}
+		if r.IntN(25) == 0 {
+			c.Text = "\ufeff" + c.Text // a byte-order mark, as some editors write
+		}
 		if r.IntN(12) == 0 {
 			// many diagnostics: counts around the boundaries at which an exit status,
 			// a byte or a small buffer wraps
@@ -629,7 +647,7 @@ func genCase(r *rand.Rand) Case {
 	// awkward but legal strings travel through JSON and argv
 	for _, v := range g.Prog.Vars {
 		if v.Fn == "" && v.Type == "string" && r.IntN(2) == 0 {
-			c.In.Vars[v.Name] = core.Pick(r, []string{"say \"hi\"", "tab\there", "back\\slash", "ünïcode ✓", "<html>&amp;", "line\nbreak", ""})
+			c.In.Vars[v.Name] = core.Pick(r, []string{"say \"hi\"", "[{\"sku\":\"A-1\"},{\"sku\":\"B-7\"}]", "},{", "a,b", "x\r\ny", "tab\there", "back\\slash", "ünïcode ✓", "<html>&amp;", "line\nbreak", ""})
 		}
 	}
 	// the same for asset and account values (they end up inside monetary values and postings)
@@ -667,6 +685,9 @@ func genCase(r *rand.Rand) Case {
 			g.Prog.Vars = append(g.Prog.Vars, gen.VarDecl{Type: "string", Name: "zz_mk", Fn: "meta", Args: []gen.Expr{*gen.Acc("a"), *gen.Str("absent" + key)}})
 			c.Text = g.Prog.Text()
 		}
+	}
+	if r.IntN(30) == 0 {
+		c.Text = "\ufeff" + c.Text
 	}
 	all := []string{"raw", "stdin", "files", "split"}
 	n := 2 + r.IntN(3)
